@@ -323,7 +323,7 @@ Lemma fdr_same n : forall k a, fdr n k a a = 21.
 Proof. induction n as [|n IH]; intros k a; cbn [fdr]; [reflexivity|]. rewrite Bool.eqb_reflx. apply IH. Qed.
 
 Lemma honest_method_1 pi pr sc : sel_method pi pr = 1 ->
-  honest (control_of pi pr sc) = N.eqb (eff_pin (a_iocap pi) (u_gen_i sc) (u_typed_i sc)) (eff_pin (a_iocap pr) (u_gen_r sc) (u_typed_r sc)).
+  honest (control_of pi pr sc) = N.eqb (eff_pin_i pi pr sc) (eff_pin_r pi pr sc).
 Proof. intros H. unfold honest, control_of. cbn [c_pin_eq c_nc_i c_nc_r c_fdb c_pk_eq]. rewrite H. cbn [N.eqb Pos.eqb]. rewrite !andb_true_r. reflexivity. Qed.
 
 Lemma honest_method_4 pi pr sc : sel_method pi pr = 4 ->
@@ -412,7 +412,7 @@ Proof. intros Hi Hr. exact (f_failure_clean _ _ (run_facts_of pi pr sc Hi Hr)). 
 
 Lemma wrong_passkey_fails_both pi pr sc :
   wf_params pi -> wf_params pr ->
-  (sel_method pi pr = 1 /\ eff_pin (a_iocap pi) (u_gen_i sc) (u_typed_i sc) <> eff_pin (a_iocap pr) (u_gen_r sc) (u_typed_r sc))
+  (sel_method pi pr = 1 /\ eff_pin_i pi pr sc <> eff_pin_r pi pr sc)
   \/ (sel_method pi pr = 5 /\ u_typed_i sc <> u_typed_r sc)
   \/ (sel_method pi pr = 4 /\ (u_nc_i sc && u_nc_r sc) = false) ->
   failure (r_i (run pi pr sc)) = true /\ failure (r_r (run pi pr sc)) = true.
@@ -427,7 +427,7 @@ Qed.
 Lemma correct_interaction_succeeds pi pr sc :
   wf_params pi -> wf_params pr ->
   sel_method pi pr <> 2 -> sel_method pi pr <> 6 ->
-  (sel_method pi pr = 1 -> eff_pin (a_iocap pi) (u_gen_i sc) (u_typed_i sc) = eff_pin (a_iocap pr) (u_gen_r sc) (u_typed_r sc)) ->
+  (sel_method pi pr = 1 -> eff_pin_i pi pr sc = eff_pin_r pi pr sc) ->
   (sel_method pi pr = 5 -> u_typed_i sc = u_typed_r sc) ->
   (sel_method pi pr = 4 -> u_nc_i sc = true /\ u_nc_r sc = true) ->
   success (r_i (run pi pr sc)) = true /\ success (r_r (run pi pr sc)) = true.
@@ -559,4 +559,44 @@ Proof.
   intros l si sr Hi Hr Hl. pose proof (seq_facts l si sr Hi Hr Hl) as H.
   eapply Forall_impl; [|exact H]. intros [c r] F. cbn [fst snd] in F. intros S1 S2.
   destruct (f_stored c r F S1 S2) as [A [B _]]. split; assumption.
+Qed.
+
+(** ---- the user follows the SPECIFICATION's Passkey Entry roles ----
+    [P] is the passkey of the session: the device Table 2.8 makes display generates it, the
+    device(s) it makes input get it typed in. *)
+Definition follows_roles (ri rr : pk_role) (sc : script) (P : N) : Prop :=
+  (match ri with Displays => u_gen_i sc = P | Inputs => u_typed_i sc = P end) /\
+  (match rr with Displays => u_gen_r sc = P | Inputs => u_typed_r sc = P end).
+
+Lemma pin_src_eqb_sound a b : pin_src_eqb a b = true -> a = b.
+Proof. destruct a, b; simpl; intros H; try discriminate; reflexivity. Qed.
+
+Lemma sel_of_peer_code p s : (p_iocap p < 5) -> sel_of_peer p = Some s -> iocap_code (sp_io s) = p_iocap p.
+Proof.
+  intros Hlt H. destruct (sel_of_peer_some p Hlt) as [s' [H1 H2]]. rewrite H in H1. injection H1 as <-.
+  rewrite <- H2. reflexivity.
+Qed.
+
+Lemma spec_roles_user_succeeds pi pr sc si sr ri rr P :
+  wf_params pi -> wf_params pr ->
+  sel_of_peer (peer_of_params pi) = Some si -> sel_of_peer (peer_of_params pr) = Some sr ->
+  spec_method si sr = (false, Passkey ri rr) ->
+  follows_roles ri rr sc P ->
+  sel_method pi pr = 1
+  /\ success (r_i (run pi pr sc)) = true /\ success (r_r (run pi pr sc)) = true.
+Proof.
+  intros Hi Hr Ei Er Hm [Fi Fr].
+  assert (M : sel_method pi pr = 1).
+  { unfold sel_method.
+    destruct (method_is_spec_peers (peer_of_params pi) (peer_of_params pr) Hi Hr) as [si' [sr' [H1 [H2 H3]]]].
+    rewrite Ei in H1. rewrite Er in H2. injection H1 as <-. injection H2 as <-.
+    rewrite H3. unfold spec_kres. rewrite Hm. reflexivity. }
+  split; [exact M|].
+  pose proof (legacy_passkey_roles si sr) as R. unfold roles_ok in R. rewrite Hm in R.
+  apply andb_true_iff in R as [R1 R2]. apply pin_src_eqb_sound in R1, R2.
+  rewrite (sel_of_peer_code (peer_of_params pi) si Hi Ei), (sel_of_peer_code (peer_of_params pr) sr Hr Er) in R1, R2.
+  cbn [peer_of_params p_iocap] in R1, R2.
+  apply correct_interaction_succeeds; try assumption; try (rewrite M; discriminate).
+  intros _. unfold eff_pin_i, eff_pin_r, eff_pin. rewrite R1, R2.
+  destruct ri, rr; cbn [spec_pin_src]; cbn in Fi, Fr; congruence.
 Qed.
